@@ -13,6 +13,7 @@ package syslog
 //@   ensures[pipe] forall p string, pad string, m string :: IsRecord(entry, p, pad, m) ==> result.PID == p && result.Message == m
 
 //@ func (*SyslogIngester).Process
+//@   blocks cancellable
 //@   requires s != nil && s.SshdProcessor != nil && ctx != nil
 //@   requires dyn(s.SshdProcessor) == typeid("*processors/sshd.SshdProcessorer")
 //@   requires SshdOK(s.SshdProcessor)
@@ -20,3 +21,8 @@ package syslog
 //@   allocates
 //@   ensures[once] g_sshd_calls == old(g_sshd_calls) + 1 && g_sshd_ctx == ctx
 //@   ensures[direct] forall p string, pad string, m string :: IsRecord(line, p, pad, m) ==> g_sshd_pid == p && g_sshd_msg == m
+
+//@ func (*SyslogIngester).Ingest
+//@   blocks cancellable
+//@   requires s != nil && ctx != nil && s.namedPipeIngester.Logger != nil && s.namedPipeIngester.Health != nil && HealthOK(s.namedPipeIngester.Health)
+//@   ensures[nonnil] result != nil
